@@ -833,6 +833,56 @@ def equal_values_of_different_types(col, tracer, width):
                                   % (short(sp), target, want, shown, msg), {'message': msg})
 
 
+class ParseLikeError(Exception):
+    pass
+
+
+MULTI_LINE_MESSAGES = [
+    'unexpected token\nin line 3\nof the input',
+    'unexpected token in line 3:\n  total = 1 +* 2\n             ^',
+    '2 validation errors\n\nname: field required\n\nage: not an integer',
+    'bad expression:\n  a.b.c\n  ~~^~~',
+    'trailing blank line\n',
+    '\nleading blank line',
+    '   ^',
+]
+
+
+def multi_line_messages(col, tracer, width):
+    """"ends with the type and message of the original error" when that message has several lines (parser / validation errors: blank
+    lines, an offending line with a ^ or ~~~ marker under it): the whole message, unchanged, is the end of glom's message.  Linear spec
+    shapes only (inside a branch the error text is also an X line of the trace, which this check reads line by line)."""
+    for i, text in enumerate(MULTI_LINE_MESSAGES):
+        for cls in (ParseLikeError, ValueError):
+            def raiser(t, text=text, cls=cls):
+                raise cls(text)
+            raiser.__name__ = 'raiser%d' % i
+            target = {'k': 1, 'a': {'b': [1, 2]}}
+            for shape, spec in (('bare', raiser), ('chain', ('a', 'b', raiser)), ('dict-in-chain', ('a', {'x': ('b', raiser)})),
+                                ('list', ('a.b', [raiser])), ('deep', {'p': {'q': ('a', {'r': ('b', [(T, raiser)])})}})):
+                tracer.reset()
+                got = call(G, target, spec)
+                col.count('evaluations')
+                col.case(('multi-line-message', i, cls.__name__, shape, width), True)
+                col.count('error_messages_checked')
+                col.count('multi_line_messages_checked')
+                if got.ok or not isinstance(got.exc, GlomError):
+                    col.violation('C05/no-glom-error-for-a-raising-callable', '%s raising %s(%r): %r' % (shape, cls.__name__, text, got), None)
+                    continue
+                msg = str(got.exc)
+                original = tracer.roots()[-1]
+                frames = all_frames(original)
+                orig_exc = next((f.exc for f in reversed(frames) if f.outcome == 'raise' and not isinstance(f.exc, GlomError)), None)
+                want_tail = ''.join(traceback.format_exception_only(type(orig_exc), orig_exc)).rstrip('\n') if orig_exc is not None else None
+                header_ok, tokens, _ = parse_trace(msg)
+                if not header_ok or not tokens or not matches(tokens[0].text, target):
+                    col.violation('C05/trace-does-not-begin-with-root-target', '%s raising a multi-line message: %r' % (shape, msg[:300]), {'message': msg})
+                elif want_tail is None or not msg.rstrip('\n').endswith(want_tail.rstrip('\n')) and not msg.endswith(want_tail):
+                    col.violation('C05/last-lines-are-not-the-original-error:multi-line-message',
+                                  '%s raising %s(%r): the message ends with %r, the original error reads %r'
+                                  % (shape, cls.__name__, text, msg[-(len(want_tail or '') + 40):], want_tail), {'message': msg})
+
+
 def child_main(width, seed, shard, nshards, tier):
     col = Collector('C05', tier, shard, nshards)
     import random
@@ -848,6 +898,7 @@ def child_main(width, seed, shard, nshards, tier):
         if shard == 0:
             exact_fit_boundaries(col, tracer, width)
         equal_values_of_different_types(col, tracer, width)
+        multi_line_messages(col, tracer, width)
         n = 400 if tier == 'quick' else 2500
         for _ in range(n):
             one_case(col, rng, tracer, width)
